@@ -1,3 +1,6 @@
+//! C37 (metadata glue) — EXPERIMENTS, not part of the check: CBMC does not finish the inlined variants within 25 minutes
+//! and aborts (status 6) on the modular variant; see DESIGN.md 9.2.
+//!
 //! C37 (metadata glue, bounded) — ForwardingMetadata::{calculate_offset_vector, forward} agree with the prefix-sum
 //! of live object sizes, on a region prefix of three 512-byte blocks with up to three live objects placed
 //! symbolically (first/last-word mark bits set by the harness), including objects spanning block boundaries and
@@ -207,7 +210,7 @@ static mut MARK_BUF: usize = 0;
 #[kani::unwind(66)]
 #[kani::stub(mmtk::util::metadata::side_metadata::SideMetadataSpec::get_starting_address, stub_starting_address)]
 #[kani::stub(mmtk::util::metadata::side_metadata::SideMetadataSpec::scan_non_zero_values, contract_scan)]
-fn c37_offset_vector_and_forward_modular() {
+fn c37_offset_vector_and_forward_modular_exp() {
     let r: usize = kani::any();
     kani::assume(r % (1 << 20) == 0 && r >= (1 << 20) && r <= (1usize << 46));
     let mut marks = Marks([0; BLOCKS * 8 + 8]);
